@@ -160,13 +160,15 @@ class VirtualLoop(asyncio.SelectorEventLoop):
         live = [h._when for h in self._scheduled if not h._cancelled]
         return min(live) if live else None
 
-    async def drain(self, horizon=None, max_rounds=1000000):
+    async def drain(self, horizon=None, max_rounds=1000000, stop=None):
         """To be awaited from the driver coroutine: let everything else run,
         jumping the clock from timer to timer, until nothing is ready and no
         live timer at or before ``horizon`` (absolute virtual seconds; None =
         unbounded) remains."""
         for _ in range(max_rounds):
             await asyncio.sleep(0)
+            if (stop is not None and stop()) or self._vnow > 3.0e6:
+                return      # the budget (events, virtual time: about a month) is used up: a runaway execution
             if self._ready:
                 continue
             nt = self.next_timer()
